@@ -626,6 +626,46 @@ pub fn main(args: &[String]) {
             }
         }
     }
+    // damaged base fonts: the tables a glyph keyed patch reads and rewrites (loca, glyf, gvar, head, maxp, CFF) with every
+    // 16-bit field of their first 240 bytes overwritten with boundary values - an error or a font
+    let mut damaged_bases = 0u64;
+    {
+        let font = FontRef::new(&base.bytes).unwrap();
+        let decoder = FaultyDecoder { fail_at: 0, calls: Cell::new(0), kind: 0 };
+        let infos: Vec<(usize, PatchInfo)> = gps.iter().enumerate().filter_map(|(i, gp)| patch_info(&font, &base.abs, gp["src"].as_str().unwrap(), gp["entry"].as_u64().unwrap() as usize).ok().map(|x| (i, x))).collect();
+        for tag in [b"loca", b"glyf", b"gvar", b"head", b"maxp", b"CFF ", b"CFF2"] {
+            let tag = Tag::new(tag);
+            let Some(table) = font.table_data(tag).map(|d| d.as_bytes().to_vec()) else { continue };
+            let mut p = 0usize;
+            while p + 2 <= table.len().min(240) {
+                for val in [0u16, 1, 0x7FFF, 0x8000, 0xFFFF] {
+                    let mut tb = table.clone();
+                    tb[p..p + 2].copy_from_slice(&val.to_be_bytes());
+                    if tb == table {
+                        continue;
+                    }
+                    let mut b = write_fonts::FontBuilder::new();
+                    b.add_raw(tag, tb);
+                    b.copy_missing_tables(font.clone());
+                    let damaged = b.build();
+                    let Ok(target) = FontRef::new(&damaged) else { continue };
+                    damaged_bases += 1;
+                    let r = guarded(|| {
+                        for (i, info) in &infos {
+                            let _ = target.apply_glyph_keyed_patches(std::iter::once((info, gk_bytes[*i].as_slice())), &decoder);
+                        }
+                        let all = infos.iter().map(|(i, info)| (info, gk_bytes[*i].as_slice()));
+                        let _ = target.apply_glyph_keyed_patches(all, &decoder);
+                    });
+                    if let Err(pn) = r {
+                        rep.violation(&format!("applying glyph keyed patches to a copy of the font whose {tag} table has u16 at {p} = {val:#x} panicked: {pn}"), json!({"kind": "damaged-base", "table": tag.to_string(), "pos": p, "val": val}));
+                    }
+                }
+                p += 2;
+            }
+        }
+    }
+    rep.add("damaged_bases", damaged_bases);
     rep.add("mismatched_tuples", mismatched);
     rep.add("hostile_patches", hostile);
     rep.evaluations = done;
